@@ -315,7 +315,16 @@ def final_prescription(spec, w):
         if st:
             for q in out: q['stop']=False
         out.insert(k-1, dict(z=zz,c=0.0,c_radius_only=0.0,n1=prev['n2'],n2=prev['n2'],refl=False,stop=st))
-    out.append(dict(z=zimg,c=0.0,c_radius_only=0.0,n1=out[-1]['n2'],n2=out[-1]['n2'],refl=False,stop=False,image=True))
+    # the image surface: entered without a medium it carries air behind it (keyword add_surface default), with an
+    # image_material that one; an explicit ImageSurface object has the medium in front of it on both sides
+    nlast = out[-1]['n2']
+    if spec.get('image_object'):
+        nimg = nlast
+    elif spec.get('image_material'):
+        nimg = float(spec['image_material'][1])
+    else:
+        nimg = 1.0
+    out.append(dict(z=zimg,c=0.0,c_radius_only=0.0,n1=nlast,n2=nimg,refl=False,stop=False,image=True))
     return out
 def _fwd(ss, y,u,z, key='c'):
     rec=[]
